@@ -616,6 +616,27 @@ class Inliner:
                 except NotInlinable as e:
                     self.log.append(f"not inlined generator {c.func.qualname} in {f.qualname}: {e}")
             return None
+        if isinstance(st, ast.If):
+            # `if helper(...):` / `if not await helper(...):` - the test is evaluated exactly once,
+            # so the call can be hoisted into a temporary in front of the statement
+            test, neg = st.test, False
+            if isinstance(test, ast.UnaryOp) and isinstance(test.op, ast.Not):
+                test, neg = test.operand, True
+            inner = test.value if isinstance(test, ast.Await) else test
+            if isinstance(inner, ast.Call):
+                c = self.a.callee(f, inner)
+                if c.kind == "func" and id(c.func) in cands and id(c.func) not in getattr(self, "gen_cands", {}) and c.func is not f and not (isinstance(inner.func, ast.Attribute) and not _simple(inner.func.value)):
+                    tmp = ast.Name(id=f"_inl{next(self.counter)}_test", ctx=ast.Store())
+                    try:
+                        pre = self._expand(f, st, inner, isinstance(test, ast.Await), c.func, "assign", tmp)
+                    except NotInlinable as e:
+                        self.log.append(f"not inlined {c.func.qualname} in {f.qualname}: {e}")
+                        return None
+                    use = ast.Name(id=tmp.id, ctx=ast.Load())
+                    st.test = ast.copy_location(ast.UnaryOp(op=ast.Not(), operand=use) if neg else use, st.test)
+                    ast.fix_missing_locations(st)
+                    return pre + [st]
+            return None
         mode, target, value = None, None, None
         if isinstance(st, ast.Expr):
             mode, value = "expr", st.value
